@@ -7,6 +7,7 @@ import (
 	"fmt"
 	"io"
 	"testing"
+	"verifharness/gen"
 
 	fgzip "github.com/intel/fastgo/compress/gzip"
 
@@ -37,6 +38,15 @@ func drawC08(t *rapid.T) C08Case {
 		}
 		m.HCRC = rapid.IntRange(0, 3).Draw(t, "hcrc") == 0
 		c.Members = append(c.Members, m)
+	}
+	if rapid.IntRange(0, 3).Draw(t, "windowsized") == 0 {
+		// one member whose payload ends right at / just past a full 64 KiB output window (or a slide):
+		// the trailer and the next member's header are then read straight after the window-full continuation
+		i := rapid.IntRange(0, n-1).Draw(t, "bigmember")
+		size := rapid.SampledFrom([]int{65536, 65536 + 288, 98304, 131072}).Draw(t, "bigsize") + rapid.SampledFrom([]int{-300, -6, -1, 0, 1, 6, 300}).Draw(t, "bigjitter")
+		kind := rapid.SampledFrom([]string{"text", "rand", "run", "period"}).Draw(t, "bigkind")
+		c.Members[i].Data = gen.Recipe{Segs: []gen.Seg{{Kind: kind, N: size, A: 7, Seed: uint64(size)}}}
+		c.Members[i].Ops = nil
 	}
 	c.Mode = rapid.SampledFrom([]string{"A", "B", "B"}).Draw(t, "mode")
 	if c.Mode == "B" && rapid.Bool().Draw(t, "hastrail") {
@@ -90,6 +100,10 @@ func checkC08(c C08Case) (labels []string, nontrivial bool, err error) {
 			return nil, false, fmt.Errorf("multistream mode: %v", e)
 		}
 		out, rerr := readAllChunks(r, c.Reads, 0)
+		// in multistream mode the Header stays that of the first member while later headers are parsed
+		if e := hdrMatches(h0, r.Name, r.Comment, r.Extra, r.ModTime, r.OS); e != nil {
+			return nil, false, fmt.Errorf("multistream mode, after reading all %d members: Header is no longer the first member's: %v", len(c.Members), e)
+		}
 		if rerr != io.EOF || !bytes.Equal(out, payload) {
 			return nil, false, fmt.Errorf("multistream mode over %d members: %d bytes then %v; want the concatenated payloads (%d bytes) then EOF; first difference at %d", len(c.Members), len(out), rerr, len(payload), firstDiff(out, payload))
 		}
@@ -133,6 +147,9 @@ func checkC08(c C08Case) (labels []string, nontrivial bool, err error) {
 				return nil, false, fmt.Errorf("member %d: %v", i+1, e)
 			}
 			out, rerr := readAllChunks(r, c.Reads, 0)
+			if e := hdrMatches(m.Hdr, r.Name, r.Comment, r.Extra, r.ModTime, r.OS); e != nil {
+				return nil, false, fmt.Errorf("member %d, after reading it: %v", i+1, e)
+			}
 			want := m.Data.Bytes()
 			if rerr != io.EOF || !bytes.Equal(out, want) {
 				return nil, false, fmt.Errorf("member %d of %d (member-by-member mode): %d bytes then %v; want %d bytes then EOF; first difference at %d", i+1, len(c.Members), len(out), rerr, len(want), firstDiff(out, want))
